@@ -140,7 +140,7 @@ def execute(scn):
     taken = st.link.taken if st.link else []
     explicit = {k: v for k, v in scn.items() if k != "sched"}
     explicit["decisions"] = taken
-    counters = {"kind:" + kind: 1, "frames_delivered": delivered, "transport_calls": st.calls(), "runs_resync_after_fault": resync}
+    counters = {"kind:" + kind: 1, "link_model:" + scn.get("sched", {}).get("model", "adversarial" if "sched" in scn else "script"): 1, "frames_delivered": delivered, "transport_calls": st.calls(), "runs_resync_after_fault": resync}
     if st.link:
         for k, v in st.link.fired.items():
             counters["fault:" + k.split(":")[0]] = counters.get("fault:" + k.split(":")[0], 0) + v
@@ -158,7 +158,7 @@ def execute(scn):
             "scn_d64": d64((items, kind, scn["bufsize"], scn.get("rawbuf"), taken, sorted(o.items()), scn.get("driver"), scn.get("max_none"))),
             "counters": counters,
             "sets": {"fault_site_matrix": sites},
-            "sim_seconds": 0.0,
+            "sim_seconds": float(getattr(decider, "now", 0.0)),
         },
     }
 
